@@ -103,6 +103,12 @@ func (v *vProcT) noteApps() {
 
 const vWatchdog = 3 * time.Second
 
+const (
+	vStdEnv      = `[["PHP Version","8.2.0"],["Plugin List",["a","b"]]]`
+	vStdLabels   = `[{"label_type":"env","label_value":"verif"}]`
+	vStdMetadata = `{"NEW_RELIC_METADATA_X":"y"}`
+)
+
 func init() {
 	VerifEngines["proc"] = vProcOp
 	verifResets = append(verifResets, vProcShutdown)
@@ -400,11 +406,18 @@ func vCanonPayload(cmd string, data []byte) string {
 					} `json:"docker"`
 				} `json:"vendors"`
 			} `json:"utilization"`
+			Environment json.RawMessage `json:"environment"`
+			Labels      json.RawMessage `json:"labels"`
+			Metadata    json.RawMessage `json:"metadata"`
 		}
 		if json.Unmarshal(data, &arr) != nil || len(arr) != 1 {
 			return bad
 		}
 		a := arr[0]
+		// the pass-through members: what the agent reported, byte for byte (every description of the engine reports the same)
+		if e, l, m := string(a.Environment), string(a.Labels), string(a.Metadata); e != vStdEnv || l != vStdLabels || m != vStdMetadata {
+			return "BAD[connect pass-through members: environment=" + e + " labels=" + l + " metadata=" + m + "]"
+		}
 		docker := a.Util.Vendors.Docker.ID
 		if docker == "" {
 			docker = "-"
@@ -1120,7 +1133,7 @@ func vProcOp(t []string) string {
 			AgentLanguage: vKVor(t, "lang", "php"), AgentVersion: vKVor(t, "ver", "1.0"), RedirectCollector: red,
 			Hostname: vKVor(t, "host", "h"), HighSecurity: vKVor(t, "hs", "0") == "1",
 			Settings: map[string]interface{}{"newrelic.distributed_tracing_enabled": vKVor(t, "dt", "0") == "1"},
-			Environment: JSONString(`[]`), Labels: JSONString(`[]`)}
+			Environment: JSONString(vStdEnv), Labels: JSONString(vStdLabels), Metadata: JSONString(vStdMetadata)}
 		if d := vKVor(t, "docker", "-"); d != "-" {
 			info.DockerId = d
 		}
@@ -1141,6 +1154,54 @@ func vProcOp(t []string) string {
 		if r := vKVor(t, "run", "-"); r != "-" {
 			x := AgentRunID(r)
 			id = &x
+		}
+		if vKVor(t, "wire", "0") == "1" {
+			// the query as the agent sends it: an App message over a connection (serve -> ReadMessage -> CommandsHandler ->
+			// UnmarshalAppInfo -> processor), optionally followed on the SAME connection by a message the daemon rejects
+			frame := func(body []byte) []byte {
+				f := make([]byte, 8+len(body))
+				byteOrder.PutUint32(f[0:4], uint32(len(body)))
+				byteOrder.PutUint32(f[4:8], uint32(MessageTypeBinary))
+				copy(f[8:], body)
+				return f
+			}
+			appMsg := vAppMsgRun(info, id)
+			chunks := [][]byte{frame(appMsg)}
+			if a, ok := vKV(t, "after"); ok && a != "-" {
+				if strings.HasPrefix(a, "same:") { // as long as the App message itself, filled with one byte value
+					fill := vUnhex(a[5:])
+					body := make([]byte, len(appMsg))
+					for i := range body {
+						body[i] = fill[i%len(fill)]
+					}
+					chunks = append(chunks, frame(body))
+				} else {
+					chunks = append(chunks, frame(vUnhex(a)))
+				}
+			}
+			conn := &vChunkConn{chunks: chunks}
+			done := make(chan struct{})
+			go func() {
+				defer close(done)
+				serve(conn, CommandsHandler{Processor: v.p})
+			}()
+			// the appinfo is answered first (the handler blocks on the reply), then the processor reports progress
+			if !v.tick() {
+				return "stuck"
+			}
+			select {
+			case <-done:
+			case <-time.After(vWatchdog):
+				return "stuck"
+			}
+			rep := "noreply"
+			if len(conn.written) >= 8 {
+				n := int(byteOrder.Uint32(conn.written[0:4]))
+				if len(conn.written) >= 8+n {
+					rep = vDecodeAppReply(conn.written[8 : 8+n])
+				}
+			}
+			return fmt.Sprintf("reply=%s reqs=%s", rep, v.collect(vExpect(t)))
 		}
 		cp := *info
 		reply := v.p.IncomingAppInfo(id, &cp)
